@@ -52,6 +52,13 @@ fn pool() -> Vec<(String, Tpl, &'static str)> {
     add("self.html", t(Some("self.html"), vec![Text(30)]), "extends-self");
     add("selfinc.txt", t(None, vec![Text(31), inc("selfinc.txt")]), "includes-self");
     add("comp.html", t(None, vec![Text(32)]).with_comp("c", vec![Text(33)]).with_comp("d", vec![Text(34), Call("c".into())]), "provider-v2");
+    // replacements that keep every cheap fingerprint (name, byte length, parent chain, block names)
+    // and change only the content, with descendants at distance 1 and 2
+    add("base.html", t(None, vec![Text(4), Var, blk("y", vec![Text(5)]), Text(6)]), "root-same-length-as-root");
+    add("kid.html", t(Some("base.html"), vec![blk("y", vec![Text(0), Super])]), "child-same-length-as-child");
+    add("leaf.html", t(Some("kid.html"), vec![blk("y", vec![Text(35), Super])]), "grandchild");
+    add("base.html", t(None, vec![Text(7), blk("y", vec![Text(8), blk("z", vec![Text(9), Var])])]), "root-v2-same-length-as-root-v2");
+    add("leaf.html", t(Some("kid.html"), vec![blk("y", vec![Text(36), Super])]), "grandchild-same-length");
     p
 }
 
@@ -104,6 +111,47 @@ fn observe(tera: &Tera) -> Vec<String> {
     out
 }
 
+/// Child side of `observe_in_child`: replays the calls on a new instance and prints what
+/// `observe` sees as one JSON line (an abort here is seen by the parent as a signal).
+fn observe_child_main() -> ! {
+    use std::io::Read;
+    let mut input = String::new();
+    std::io::stdin().read_to_string(&mut input).expect("stdin");
+    let job: serde_json::Value = serde_json::from_str(&input).expect("job");
+    silence_panics();
+    let mut tera = Tera::default();
+    for c in job["calls"].as_array().expect("calls") {
+        if let Some(sf) = c.get("autoescape_on") {
+            let v: Vec<String> = sf.as_array().unwrap().iter().map(|x| x.as_str().unwrap().to_string()).collect();
+            tera.autoescape_on(v);
+        } else {
+            let b: Vec<(String, String)> = c["add"].as_array().unwrap().iter().map(|p| (p[0].as_str().unwrap().to_string(), p[1].as_str().unwrap().to_string())).collect();
+            let _ = add_all(&mut tera, &b);
+        }
+    }
+    println!("{}", json!(observe(&tera)));
+    std::process::exit(0);
+}
+
+/// Observation of the instance reached by `calls`, taken in a child process: used after a
+/// failing add that touched existing or repeated names, where a broken rollback can leave a
+/// never-validated template behind whose render does not terminate.
+fn observe_in_child(calls: &[serde_json::Value]) -> Result<Vec<String>, String> {
+    let (lines, bad) = run_child_with("observe-child", &json!({"calls": calls}), std::time::Duration::from_secs(30));
+    if let Some(b) = bad {
+        return Err(b);
+    }
+    let last = lines.last().ok_or_else(|| "no output".to_string())?;
+    let v: serde_json::Value = serde_json::from_str(last).map_err(|e| e.to_string())?;
+    Ok(v.as_array().ok_or("not an array")?.iter().map(|x| x.as_str().unwrap_or("").to_string()).collect())
+}
+
+fn sorted_names(tera: &Tera) -> Vec<String> {
+    let mut names: Vec<String> = tera.get_template_names().map(|s| s.to_string()).collect();
+    names.sort();
+    names
+}
+
 fn first_diff(a: &[String], b: &[String]) -> String {
     for (x, y) in a.iter().zip(b.iter()) {
         if x != y {
@@ -122,6 +170,7 @@ struct Run {
     calls_ok: usize,
     calls_err: BTreeMap<String, usize>,
     fresh_compared: usize,
+    child_observations: usize,
 }
 
 impl Run {
@@ -134,7 +183,9 @@ impl Run {
         let mut prev_obs = observe(&tera);
         let mut any_err = false;
         let mut any_ok = false;
+        let mut prev_names = sorted_names(&tera);
         for (ci, c) in calls.iter().enumerate() {
+            let mut touches_existing = false;
             match c {
                 Call::Auto(k) => {
                     cur_sufs = *k;
@@ -144,6 +195,7 @@ impl Run {
                 }
                 Call::Add(idx) => {
                     let batch: Vec<(String, String)> = idx.iter().map(|i| (self.pool[*i].0.clone(), self.srcs[*i].clone())).collect();
+                    touches_existing = batch.iter().enumerate().any(|(k, (n, _))| set.contains_key(n) || batch[..k].iter().any(|(m, _)| m == n));
                     let r = add_all(&mut tera, &batch);
                     jcalls.push(json!({"add": batch.iter().map(|(n, s)| json!([n, s])).collect::<Vec<_>>(),
                         "impl": match &r { Ok(()) => json!("ok"), Err(c) => json!({"err": c}) }}));
@@ -170,15 +222,44 @@ impl Run {
                 }
             }
             // ---- oracle: the property itself
-            let obs = observe(&tera);
-            self.meta.oracle_checks += 1;
             let failed_add = matches!(c, Call::Add(_)) && results.last().map_or(false, |r| r.starts_with("(Err"));
+            self.meta.oracle_checks += 1;
+            let names_now = sorted_names(&tera);
+            if failed_add && names_now != prev_names {
+                // nothing is rendered on this instance any more: what is left may never have been validated
+                self.meta.oracle_fail(
+                    &format!("a FAILING add changed the set of template names at call {ci}: {prev_names:?} -> {names_now:?}"),
+                    None,
+                    json!({"calls": jcalls}),
+                );
+                return;
+            }
+            let obs = if failed_add && touches_existing {
+                // a broken rollback could have left a never-validated template under an old name
+                self.child_observations += 1;
+                match observe_in_child(&jcalls) {
+                    Ok(o) => o,
+                    Err(how) => {
+                        self.meta.oracle_fail(
+                            &format!("after the FAILING add at call {ci} rendering the instance did not end ({how}): the rollback left something that was never validated"),
+                            None,
+                            json!({"calls": jcalls}),
+                        );
+                        return;
+                    }
+                }
+            } else {
+                observe(&tera)
+            };
+            prev_names = names_now;
             if failed_add && obs != prev_obs {
                 self.meta.oracle_fail(
                     &format!("a FAILING add changed observable behaviour at call {ci}: {}", first_diff(&prev_obs, &obs)),
                     None,
                     json!({"calls": jcalls}),
                 );
+                // the instance holds something that was not validated: stop using it
+                return;
             }
             // fresh instances given the resulting set in one batch: sorted order and shuffled
             let sorted: Vec<(String, String)> = set.iter().map(|(n, s)| (n.clone(), s.clone())).collect();
@@ -249,6 +330,9 @@ impl Run {
 }
 
 fn main() {
+    if std::env::args().nth(1).as_deref() == Some("observe-child") {
+        observe_child_main();
+    }
     let args = parse_args();
     silence_panics();
     let mut rng = Rng::new(args.seed);
@@ -265,6 +349,7 @@ fn main() {
         calls_ok: 0,
         calls_err: BTreeMap::new(),
         fresh_compared: 0,
+        child_observations: 0,
     };
     if let Some(p) = &args.replay {
         let r: serde_json::Value = serde_json::from_str(&std::fs::read_to_string(p).expect("replay")).expect("json");
@@ -316,10 +401,28 @@ fn main() {
         }
     }
 
+    // --- replacements on top of an accepted core with descendants at distance 1 and 2
+    // (root, child, grandchild, partial, page, component provider): every pool descriptor as
+    // one replacement, and every pair of the same-name variants as two successive replacements
+    let core = vec![0usize, 2, 27, 4, 5, 6];
+    for r in 0..n {
+        run.history(&mut rng, &[Call::Add(core.clone()), Call::Add(vec![r])], "replace1");
+        run.history(&mut rng, &[Call::Add(vec![0]), Call::Add(vec![2]), Call::Add(vec![27]), Call::Add(vec![r])], "replace1");
+    }
+    let variants = [0usize, 1, 25, 28, 2, 26, 27, 29, 19, 3];
+    for a in variants {
+        for b in variants {
+            run.history(&mut rng, &[Call::Add(core.clone()), Call::Add(vec![a]), Call::Add(vec![b])], "replace2");
+            // a failing batch that repeats a name: the undo list must be replayed in reverse
+            run.history(&mut rng, &[Call::Add(core.clone()), Call::Add(vec![a, b, 8])], "rollback");
+            run.history(&mut rng, &[Call::Add(vec![4, 5, 6]), Call::Add(vec![20, 4, 8]), Call::Add(vec![a, b, 9])], "rollback");
+        }
+    }
+
     // --- random histories, length <= 12, batches of 1..3, autoescape interleaved
     let k = if thorough { 4000 } else { 500 };
     // descriptors that make an accepted core, so that histories do not fail all the way
-    let good = [0usize, 1, 2, 4, 5, 6, 24];
+    let good = [0usize, 1, 2, 4, 5, 6, 24, 25, 26, 27, 28, 29];
     for _ in 0..k {
         let len = 2 + rng.below(11);
         let mut calls = vec![];
@@ -338,12 +441,13 @@ fn main() {
         run.history(&mut rng, &calls, "random");
     }
 
-    let Run { sink, mut meta, calls_ok, calls_err, fresh_compared, .. } = run;
+    let Run { sink, mut meta, calls_ok, calls_err, fresh_compared, child_observations, .. } = run;
     meta.extra.insert("exhaustive_histories".into(), json!(exhaustive));
     meta.extra.insert("exhaustive_space".into(), json!(format!("all histories of <= {} single-template add calls over the {} pool descriptors + all two-template batches", if thorough { 3 } else { 2 }, n)));
     meta.extra.insert("successful_add_calls".into(), json!(calls_ok));
     meta.extra.insert("failing_add_calls_by_kind".into(), json!(calls_err));
     meta.extra.insert("fresh_instance_comparisons".into(), json!(fresh_compared));
+    meta.extra.insert("child_process_observations_after_failed_adds".into(), json!(child_observations));
     meta.families.push(sink.finish());
     meta.write(&args.out);
 }
